@@ -43,6 +43,12 @@ CHECKS = {
     "C17": dict(engine="InterpStack", ref="5/C17",
                 text="TLC exhaustively explores spec/InterpStack.tla (stack of prioritised frames with atomic Memoize items, open lexical blocks with entry snapshots, propagating exception) over all 9 interpretation kinds as with-blocks and decorators, nesting depth <= 4 (quick) / 5 (thorough), an exception injected at every position, sibling blocks and the priority-list overflow in __enter__, and checks Restore, BaseNeverPopped and Innermost (frame layering = lexical scoping) in the model. Every reachable state is emitted with its history; every maximal history is executed against funsor with real with-statements, decorated calls and raised exceptions, comparing after every step the repr of every frame of funsor.interpreter._STACK and the class / recording tapes of probe terms with TLC's expectations. A seeded sample of the same runs is recorded as push/pop/probe traces from a logging _STACK and validated by TLC with spec/Trace_InterpStack.tla (self-test: a dropped pop and a doubled push must be rejected).",
                 note="trusted: TLC, the Handles table of InterpFrames.tla (which rule table answers which of the 4 probes), repr() of interpretations, harness/stackdriver.py; bounds: depth <= 5 for chains, depth 3 and <= 4 entries for siblings, depth 8 for overflow, <= 2 raises; a new AdjointTape per entry; numpy backend; single-threaded"),
+    "C11": dict(engine="Adjoint", ref="5/C11",
+                text="spec/Adjoint.tla defines the structural semiring derivative DTerm(expression, leaf) as an L1 term (product rule, linearity of sums and reductions, multiplicities of broadcast reductions) and TLC checks in the model that on flat sum-product expressions it equals the definitional form (sum over the variables the leaf does not mention of the product of all other factors). For every expression of the (add,mul) and (logaddexp,add) lenses with pairwise distinct tensor leaves TLC emits the forward table and one adjoint table per leaf; the harness runs funsor.adjoint.forward_backward on the lazily built expression and on its optimizer-restructured form and compares the forward value and every returned adjoint.",
+                note="trusted as C01; programs the tape rejects are declines; one open finding (multiplicity of broadcast reductions) masks adjoint mismatches on expressions that have that feature; leaves wrapped in renamings / slices / Cat are not yet generated"),
+    "C16": dict(engine="Dispatch", ref="5/C16",
+                text="TLC (spec/Dispatch.tla) judges data recorded from the live code: over a pool of 150 (thorough 390) parametric types - all components of all registered signatures of every interpretation registry and op dispatcher, plus deep_type of sample objects - the three-valued truth tables of deep_issubclass and of issubclass on typing_wrap'ed types are checked for reflexivity, transitivity (all defined triples), mutual agreement, the named structural laws against the model's SubT (nominal from recorded __mro__, Cls[args] covariance, tuple componentwise/variadic, union-left=all, union-right=some, frozenset covariance), and membership against structural InstOf on recorded object trees. Every dispatch event (argument tuples synthesised for every registered signature plus events observed while evaluating random expressions) is judged: the chosen signature matches and is <= every other matching one. S->C: TLC enumerates all behaviours of the DispatchCache machine (dispatch / clear cache / cold restart, all first-use orders, bounded length); each is replayed on the real dispatcher and the selected function must equal the model's unique most specific rule. Registration order: seeded permutations preserving TLC-computed comparability, fresh dispatchers with per-signature markers.",
+                note="trusted: TLC, the type-to-AST converter and object-tree recorder in harness/dispatchdriver.py, python's __mro__/abc for plain classes, multipledispatch's funcs dict as the list of registered signatures. Undefined pairs (TypeError, ~15%) are excluded and counted. Machine bounds: 5x3 tuples, log length <= 4 (thorough 10x4, <= 5). numpy backend only. Five open findings (ambiguous signature pairs, typing_wrap corner cases)."),
 }
 
 NOT_YET = "check not built yet in this round (planned, see DESIGN.md section 5)"
@@ -87,6 +93,10 @@ def main():
              "kind_free_text": "TLA+ enumeration of Markov-product problems with the left fold as oracle (plus spec/MarkovLag.tla); replayed by harness/modes.py:c10, emitted scan terms judged by Judge.tla"},
             {"name": "InterpStack", "path": "spec/InterpStack.tla", "serves_properties": ["C17"],
              "kind_free_text": "TLA+ interpretation-stack machine (InterpFrames.tla, Trace_InterpStack.tla); replayed with real with-blocks by harness/stackdriver.py"},
+            {"name": "Adjoint", "path": "spec/Adjoint.tla", "serves_properties": ["C11"],
+             "kind_free_text": "TLA+ structural semiring derivative over L1 terms (extends TermMachine); replayed by harness/modes.py:c11"},
+            {"name": "Dispatch", "path": "spec/Dispatch.tla", "serves_properties": ["C16"],
+             "kind_free_text": "TLA+ subtype model, DispatchCache machine and trace judge over recorded truth tables / dispatch events; harness/dispatchdriver.py"},
             {"name": "Judge", "path": "spec/Judge.tla", "serves_properties": ["C02", "C08"],
              "kind_free_text": "TLA+ trace specification that consumes recorded events (rule firings, emitted terms) and decides them with the L1 denotation"},
         ],
